@@ -5,7 +5,7 @@
    points are Enc(k, r) for any key k over the alphabet and any revision r (in a well-formed store every
    stored key has that form). *)
 From KB Require Import Base.Cases Model.Coder Model.ReadSys Model.C03Cases Model.C13Cases
-  Proofs.Coder Proofs.ReadSys Proofs.ReadSysSnap Proofs.ReadSysThm Proofs.ReadSysSpec Proofs.ReadSysPart Proofs.ReadSysC13.
+  Proofs.Coder Proofs.ReadSys Proofs.ReadSysSnap Proofs.ReadSysThm Proofs.ReadSysSpec Proofs.ReadSysPart Proofs.ReadSysC13 Proofs.ReadSysC13b.
 Local Open Scope N_scope.
 
 (* fold splitting: the worker loop over X ++ Y is the two runs concatenated when no key occurs on both sides *)
@@ -54,7 +54,7 @@ Theorem C13_count : forall (V : list (@vrec bytes)) fv parts cur a b,
 Proof. exact c13_count. Qed.
 Print Assumptions C13_count.
 
-(* proved part of the oracle's soundness (C13_oracle_sound_full_statement below), at the level of a raw
+(* part of the oracle's soundness (C13_oracle_sound below), at the level of a raw
    dump that passes the executable well-formedness test: what the model computes on the dump for the
    unpartitioned List, the partitioned List and the partitioned Count is the in-range snapshot of the
    dump's versions — the first three clauses of c13_oracle's group verdict *)
@@ -99,10 +99,57 @@ Theorem C13_advertised : forall (V : list (@vrec bytes)) R parts cur a b,
 Proof. exact c13_advertised. Qed.
 Print Assumptions C13_advertised.
 
-(* full statement about the executable oracle (not proved as one lemma; its ingredients are the theorems
-   above): a case the model reproduces entirely is never an unlisted violation *)
-Definition C13_oracle_sound_full_statement : Prop :=
-  forall c, c13_check c = true -> c13_oracle c <> Some 0.
+(* ---------- the executable check and oracle ---------- *)
+(* the greedy interleaving test used by the check is sound for the `interleaving` relation of the model *)
+Theorem C13_interleave_check_sound : forall out ls, interleave_check ls out = true -> interleaving ls out.
+Proof. exact interleave_check_sound. Qed.
+Print Assumptions C13_interleave_check_sound.
+
+Theorem C13_stream_check_sound : forall r out, stream_check r out = true -> stream_outcome r out.
+Proof. exact stream_check_sound. Qed.
+Print Assumptions C13_stream_check_sound.
+
+(* the oracle's multiset comparison: sorting any permutation of a list strictly ascending by key returns it;
+   the in-range snapshot is such a list *)
+Theorem C13_sort_streamed : forall l K, Permutation l K -> StronglySorted olt K -> sort_okv l = K.
+Proof. exact sort_okv_of_perm. Qed.
+Print Assumptions C13_sort_streamed.
+
+Theorem C13_snapshot_key_sorted : forall (V : list (@vrec bytes)) R, StronglySorted olt (snapshot V R).
+Proof. exact snapshot_sorted. Qed.
+Print Assumptions C13_snapshot_key_sorted.
+
+(* one stream the model reproduces on a raw dump — the whole range or a non-degenerate advertised pair *)
+Theorem C13_stream_dump : forall s fv parts cur k1 k2 rev out,
+  dump_wf s = true -> alpha k1 -> alpha k2 -> bcmp k1 k2 = Lt -> valid_parts parts k1 k2 ->
+  floor_check fv (eff rev cur) = FOk ->
+  stream_check (stream_model s fv parts cur (encode k1 0) (encode k2 0) rev) out = true ->
+  stream_shape (eff rev cur) out = true /\
+  Permutation (stream_kvs out) (in_range k1 k2 (snapshot (versions_of (data_of s)) (eff rev cur))).
+Proof. exact stream_dump. Qed.
+Print Assumptions C13_stream_dump.
+
+(* any advertised pair, including the empty pair (c, c) for which the engine answers [(c, c)] *)
+Theorem C13_pair_stream : forall s fv parts cur c d rev out,
+  dump_wf s = true -> index_pos c -> index_pos d -> bcmp c d <> Gt -> pair_valid parts c d ->
+  floor_check fv (eff rev cur) = FOk ->
+  stream_check (stream_model s fv parts cur c d rev) out = true ->
+  stream_shape (eff rev cur) out = true /\
+  Permutation (stream_kvs out) (wrun_top (eff rev cur) (seg (versions_of (data_of s)) c d)).
+Proof. exact pair_stream. Qed.
+Print Assumptions C13_pair_stream.
+
+(* one group: if the model reproduces all six recorded responses, all eight clauses of the oracle hold *)
+Theorem C13_group_sound : forall s fv cur calls g,
+  dump_wf s = true -> c13_group_valid calls cur g -> group_check s fv cur calls g = true -> group_verdict s cur g = None.
+Proof. exact c13_group_sound. Qed.
+Print Assumptions C13_group_sound.
+
+(* the whole case: a case the model reproduces entirely satisfies the property oracle.  c13_valid: keys over
+   the alphabet and every recorded engine answer a tiling (Prop-level facts the boolean check does not test) *)
+Theorem C13_oracle_sound : forall c, c13_valid c -> c13_check c = true -> c13_oracle c = None.
+Proof. exact c13_oracle_sound. Qed.
+Print Assumptions C13_oracle_sound.
 
 (* ---------- the sort in GetPartitions is needed (former finding C13-F1, fixed) ----------
    advertised_keys applied to the engine's list as given — what GetPartitions did before the fix — yields
@@ -154,3 +201,40 @@ Example C13_alphabet_needed :
   list_model (raw_of V) None (fun lo hi => [(lo, bad); (bad, hi)]) 158913789952 [47; 114; 47] [47; 114; 48] 0 0
     = LResp 158913789952 [(k_a, [49], 5); (k_a, [50], 158913789952)] false.
 Proof. vm_compute. reflexivity. Qed.
+
+(* non-vacuity of C13_oracle_sound: a concrete case (the store and the shuffled three-piece tiling above, every
+   advertised pair answered by one piece), its responses computed by the model, is valid and passes the check *)
+Definition ex_lo : bytes := encode [47; 114; 47] 0.
+Definition ex_hi : bytes := encode [47; 114; 48] 0.
+Definition ex_calls : list pcall :=
+  [(ex_lo, ex_hi, ex_parts ex_lo ex_hi);
+   (ex_lo, encode k_a 0, [(ex_lo, encode k_a 0)]);
+   (encode k_a 0, encode k_b 0, [(encode k_a 0, encode k_b 0)]);
+   (encode k_b 0, ex_hi, [(encode k_b 0, ex_hi)])].
+Definition ex_stream (r : stream_res) : list smsg := match r with StOk pp t => concat pp ++ [t] | StPanic => [] end.
+Definition ex_group : c13_group :=
+  let s := raw_of ex_store13 in
+  let parts := parts_of ex_calls in
+  let a := [47; 114; 47] in let b := [47; 114; 48] in
+  mk_group a b 103
+    (list_model s None single_part 106 a b 103 0) (list_model s None parts 106 a b 103 0)
+    (count_model s None parts true 106 a b)
+    (ex_stream (stream_model s None parts 106 (encode a 0) (encode b 0) 103))
+    (get_partitions_model parts 106 a b)
+    (map (fun p => ex_stream (stream_model s None parts 106 (fst p) (snd p) 103))
+         (pairs_of (snd (get_partitions_model parts 106 a b)))).
+Definition ex_case : c13_case := mk_c13 [99] (raw_of ex_store13) 106 [mk_tiling ex_calls [ex_group]].
+
+Lemma single_tiling lo hi : bcmp lo hi = Lt -> tiling [(lo, hi)] lo hi.
+Proof. intros L. exists [hi]. split; [discriminate|]. split; [apply Permutation_refl|]. repeat split; [exact L|constructor]. Qed.
+
+Example C13_oracle_sound_inhabited : c13_valid ex_case /\ c13_check ex_case = true /\ c13_oracle ex_case = None.
+Proof.
+  split; [|split; vm_compute; reflexivity].
+  intros t [<-|[]] g [<-|[]]. split; [repeat constructor|]. split; [repeat constructor|]. intros _. split.
+  - change (parts_of (t_calls (mk_tiling ex_calls [ex_group]))) with (parts_of ex_calls).
+    unfold valid_parts. change (parts_of ex_calls (encode (g_a ex_group) 0) (encode (g_b ex_group) 0)) with (ex_parts ex_lo ex_hi).
+    apply (proj2 C13_tiling_inhabited).
+  - intros p Hp. vm_compute in Hp.
+    destruct Hp as [<-|[<-|[<-|[]]]]; right; apply single_tiling; vm_compute; reflexivity.
+Qed.
